@@ -30,7 +30,7 @@ def scenarios(tier):
     out = []
     for name, en, ex in scripts:
         drop = {"none": (("RAW", "M106 S0"), ("RAW", "M204 S"), ("RAW", "M205 X5"), ("TRAVEL", "I2")),
-                "one": (("RAW", "M106 S0"), ("RAW", "M204 S"), ("RAW", "M205 X5"), ("TRAVEL", "I2"), ("RAW", "M204 S0")),
+                "one": (("RAW", "M204 T200"), ("RAW", "M204 S"), ("RAW", "M205 X5"), ("TRAVEL", "I2"), ("RAW", "M204 S0")),
                 "two": (("RAW", "M106 S0"), ("RAW", "M204 T200"), ("RAW", "M117 b"), ("TRAVEL", "I2"),
                         ("RAW", "G4 P100"))}[name]
         menu = MENU if not q else [e for e in MENU if e not in drop]
